@@ -106,6 +106,7 @@ class Ctx:
         self.observations = collections.OrderedDict()  # key -> {"count": n, "examples": []}
         self.abstained = collections.Counter()
         self.inconclusive = []
+        self.requirements = {}
         self.extra = {}
         self.t0 = time.time()
 
@@ -156,11 +157,9 @@ class Ctx:
         self.inconclusive.append(str(reason))
 
     def require(self, counter, minimum=1):
-        """The deciding monitor must have been evaluated at least `minimum` times."""
-        if self.counters[counter] < minimum:
-            self.mark_inconclusive(
-                "counter %s=%d below required %d" % (counter, self.counters[counter], minimum)
-            )
+        """The deciding monitor must have been evaluated at least `minimum` times (judged on the
+        counters merged over all shards, in finish())."""
+        self.requirements[counter] = max(self.requirements.get(counter, 0), minimum)
 
     # -- (de)serialisation for shards ------------------------------------
     def dump(self):
@@ -175,6 +174,7 @@ class Ctx:
             "observations": self.observations,
             "abstained": dict(self.abstained),
             "inconclusive": self.inconclusive,
+            "requirements": self.requirements,
             "extra": jsonable(self.extra),
             "wall_s": time.time() - self.t0,
         }
@@ -201,6 +201,8 @@ class Ctx:
                     mine["examples"].append(e)
         self.abstained.update(d["abstained"])
         self.inconclusive.extend(d["inconclusive"])
+        for k, v in d.get("requirements", {}).items():
+            self.requirements[k] = max(self.requirements.get(k, 0), v)
         for k, v in d.get("extra", {}).items():
             if isinstance(v, (int, float)) and isinstance(self.extra.get(k, 0), (int, float)):
                 self.extra[k] = self.extra.get(k, 0) + v
@@ -268,6 +270,10 @@ def finish(ctx: Ctx, rule: str, assumptions=(), level="exploration", write=True)
     samples = samples[: MAX_SAMPLES * 3]
 
     inconclusive = list(ctx.inconclusive)
+    for counter, minimum in sorted(ctx.requirements.items()):
+        if ctx.counters[counter] < minimum:
+            inconclusive.append("counter %s=%d below required %d (deciding monitor not reached often enough)"
+                                % (counter, ctx.counters[counter], minimum))
     if ctx.counters["evaluations"] < 1:
         inconclusive.append("no evaluations")
     if len(ctx.nontrivial) < 2:
